@@ -21,7 +21,7 @@ def seeded_table():
         if not os.path.exists(mp):
             continue
         m = json.load(open(mp))
-        title = m.get("needs_to_manifest", "").strip().splitlines()[0].lstrip("# ").strip()
+        title = ((m.get("needs_to_manifest", "").strip().splitlines() or [m.get("title") or "(see patch.diff)"])[0]).lstrip("# ").strip()
         title = re.sub(r"^C\d\d\s*/\s*[ab]\s*[—-]\s*", "", title)
         r = res.get(name)
         if m.get("retired"):
